@@ -698,14 +698,18 @@ pub fn gen_feedback(t: &mut Tape, cur: &[usize], o: &GenOpts, skips: bool, any_a
     LayerSpec::Feedback { layers, loops, inskips, outskips, acc }
 }
 
-/// A convolution or deconvolution that keeps height and width (odd kernel k, stride 1, padding (k-1)/2).
+/// A convolution or deconvolution that keeps height and width: stride 1, odd kernel k (1 or 3, one time in
+/// eight 5), padding d(k-1)/2; convolutions with dilation d = 2 on an axis one time in four.
 pub fn gen_same_size(t: &mut Tape, filters: usize, h: usize, w: usize, o: &GenOpts) -> LayerSpec {
-    let kh = if h >= 1 && t.bool() { 3 } else { 1 };
-    let kw = if w >= 1 && t.bool() { 3 } else { 1 };
-    let cfg = ConvCfg { filters, kernel: (kh, kw), stride: (1, 1), padding: ((kh - 1) / 2, (kw - 1) / 2), dilation: (1, 1) };
+    let kh = if h >= 1 && t.bool() { if t.chance(1, 8) { 5 } else { 3 } } else { 1 };
+    let kw = if w >= 1 && t.bool() { if t.chance(1, 8) { 5 } else { 3 } } else { 1 };
     if t.bool() {
+        let dh = if t.chance(1, 4) { 2 } else { 1 };
+        let dw = if t.chance(1, 4) { 2 } else { 1 };
+        let cfg = ConvCfg { filters, kernel: (kh, kw), stride: (1, 1), padding: (dh * (kh - 1) / 2, dw * (kw - 1) / 2), dilation: (dh, dw) };
         LayerSpec::Conv { cfg, act: gen_act(t, o), dropout: gen_dropout(t, o) }
     } else {
+        let cfg = ConvCfg { filters, kernel: (kh, kw), stride: (1, 1), padding: ((kh - 1) / 2, (kw - 1) / 2), dilation: (1, 1) };
         LayerSpec::Deconv { cfg, act: gen_act(t, o), dropout: gen_dropout(t, o) }
     }
 }
